@@ -43,8 +43,9 @@ type foThread struct {
 }
 
 type foBuild struct {
-	OK   bool
-	TTLs []int64
+	OK     bool
+	TTLs   []int64
+	CtxErr bool // the error is a context cancellation
 }
 
 type foScenario struct {
@@ -85,6 +86,9 @@ func (sc foScenario) describe() map[string]interface{} {
 		s := "ok"
 		if !b.OK {
 			s = "err"
+			if b.CtxErr {
+				s = "err(context.Canceled)"
+			}
 		}
 		if len(b.TTLs) > 0 {
 			s += fmt.Sprint(b.TTLs)
@@ -358,7 +362,7 @@ func runFoScenario(d *Driver, id string, sc foScenario, res *Result) (trace []st
 			if dir.bOK {
 				return dir.bVal, nil
 			}
-			return 0, tokErr{dir.bErr}
+			return 0, tokErr{n: dir.bErr, ctxErr: dir.bCtx}
 		}
 	}
 
@@ -448,7 +452,7 @@ func runFoScenario(d *Driver, id string, sc foScenario, res *Result) (trace []st
 					b = sc.Builds[buildIdx]
 				}
 				buildIdx++
-				dir.bOK, dir.bTTLs = b.OK, b.TTLs
+				dir.bOK, dir.bTTLs, dir.bCtx = b.OK, b.TTLs, b.CtxErr
 				if b.OK {
 					nextVal++
 					dir.bVal = nextVal
@@ -659,7 +663,7 @@ func genFoScenario(profile string, seed int64, idx int, tier string) foScenario 
 		sc.Threads = append(sc.Threads, th)
 	}
 	for b := 0; b < 8; b++ {
-		fb := foBuild{OK: rng.Intn(3) != 0}
+		fb := foBuild{OK: rng.Intn(3) != 0, CtxErr: rng.Intn(3) == 0}
 		if rng.Intn(4) == 0 {
 			for j := 0; j < 1+rng.Intn(2); j++ {
 				fb.TTLs = append(fb.TTLs, []int64{int64(time.Minute), int64(3 * time.Hour), 0, -int64(time.Minute), int64(time.Second)}[rng.Intn(5)])
